@@ -254,6 +254,10 @@ def m_dm_entry(I, a, t, c):
 
 
 def _ent(I, e):
+    while isinstance(e, RefV):
+        e = I.load(e)
+    if e.kind.startswith('adt:'):          # hashbrown::hash_map::Entry value (Occupied / Vacant around the (map, key) payload)
+        e = e.fields[0]
     m = _map(I, e.fields[0])
     return m, _mkey(e.fields[1]), e.fields[1]
 
